@@ -23,7 +23,15 @@ def weight(line):
 
 
 def requests(tier, rng):
-    return [K.keygen(s, bytes(rng.randrange(256) for _ in range(32))) for s in K.SETS]
+    L = [K.keygen(s, bytes(rng.randrange(256) for _ in range(32))) for s in K.SETS]
+    # honest path at its rare branches: key seeds for which a secret polynomial needs one more SHAKE-256 block than usual
+    # (eta = 4: a third block, about 1 seed in 3*10^4; found by search with hashlib, independent of the code)
+    for s in ("lvl3", "ml_dsa_65"):
+        for _ in range(1 if tier == "quick" else 4):
+            xi = S.find_keygen_seed_eta_refill(S.P(s), 2, rng, budget=200000)
+            if xi is not None:
+                L.append(K.keygen(s, xi))
+    return L
 
 
 def followup(stage, lines, model, checked, release, tier, rng):
@@ -85,6 +93,14 @@ def violated_all(lines, model, checked, release):
             for prof, ans in (("checked", checked), ("wrapping", release)):
                 if ans[i] != "ok true":
                     out.append((i, "%s build: honest keygen+sign+verify: %s" % (prof, ans[i])))
+        elif "::keypair " in l and not l.startswith("@"):
+            for prof, ans in (("checked", checked), ("wrapping", release)):
+                if not ans[i].startswith("ok "):
+                    out.append((i, "%s build: key generation from a 32-byte seed did not complete: %s" % (prof, ans[i][:40])))
+        elif "::signature " in l and not l.startswith("@"):
+            for prof, ans in (("checked", checked), ("wrapping", release)):
+                if not ans[i].startswith("ok "):
+                    out.append((i, "%s build: signing with a generated key did not complete: %s" % (prof, ans[i][:40])))
         elif "::verify " in l:
             t = l.split()
             p = S.P(t[0].split("::")[1])
